@@ -73,6 +73,8 @@ JVM_ENV = {"JAVA_TOOL_OPTIONS": "-Xss64m"}
 JVM_ENV_TRACE = {"JAVA_TOOL_OPTIONS": "-Xss64m -XX:ParallelGCThreads=2 -XX:CICompilerCount=2"}
 
 DERIVED = ["roundtrip", "copy", "copy2", "pickle", "rpickle", "symbolic", "setter"]
+PRE_TOUCH = ["symbolic", "eq", "eval", "text", "genes"]
+RM_DERIVED = ["symbolic", "copy", "roundtrip", "pickle", "modelcopy"]
 KO_FORMS = ["set", "frozenset", "list", "tuple", "dictlist"]
 ABSENT = {"k": "none", "id": "", "ch": []}
 
@@ -202,7 +204,7 @@ class Driver:
     @staticmethod
     def obs(**kw):
         o = {"raises": "none", "tt": [], "genes": [], "toks": [], "toks2": [], "eq": "na", "eq2": "na",
-             "present": True}
+             "present": True, "pre": [], "dhow": [], "dtt": [], "dgenes": [], "deq": []}
         o.update(kw)
         return o
 
@@ -290,6 +292,7 @@ class Driver:
 
     def remove(self, text, K, rr, variant):
         import cobra
+        from cobra.core.gene import GPR
         from cobra.manipulation.delete import remove_genes
         try:        # building the model is not the call under test
             m = cobra.Model("m")
@@ -309,13 +312,57 @@ class Driver:
                 arg = {m.genes.get_by_id(i) for i in ids}
         except Exception as e:
             return self.obs(raises="setup:" + type(e).__name__)
+        # the rule object has a history before the removal: which of its read-only views were used
+        # (a seeded subset; reading a rule must not change what a later edit in place leaves behind)
+        pre = [n for i, n in enumerate(PRE_TOUCH) if (variant >> (2 + i)) & 1]
+        try:
+            g0 = r.gpr
+            for n in pre:
+                if n == "symbolic":
+                    g0.as_symbolic()
+                elif n == "eq":
+                    g0 == g0.copy()
+                elif n == "eval":
+                    g0.eval(set(ids))
+                elif n == "text":
+                    g0.to_string()
+                elif n == "genes":
+                    g0.genes
+        except Exception as e:
+            return self.obs(raises="setup:" + type(e).__name__)
         try:
             remove_genes(m, arg, remove_reactions=rr)
             present = bool(m.reactions.has_id("R1")) and m.reactions.get_by_id("R1") is r
-            return self.obs(present=present, tt=self.table(r.gpr, "set"), genes=self.absgenes(r.gpr.genes),
-                            toks=self.lex(r.gene_reaction_rule), toks2=self.absgenes(x.id for x in r.genes))
+            o = self.obs(present=present, tt=self.table(r.gpr, "set"), genes=self.absgenes(r.gpr.genes),
+                         toks=self.lex(r.gene_reaction_rule), toks2=self.absgenes(x.id for x in r.genes), pre=pre)
         except Exception as e:
             return self.obs(raises=type(e).__name__)
+        if not present:
+            return o
+        # the rule that the edit in place left behind is a rule like any other: its derived forms
+        for how in RM_DERIVED:
+            try:
+                g = r.gpr
+                if how == "symbolic":
+                    d = GPR.from_symbolic(g.as_symbolic())
+                elif how == "copy":
+                    d = g.copy()
+                elif how == "roundtrip":
+                    d = GPR.from_string(g.to_string())
+                elif how == "pickle":
+                    d = pickle.loads(pickle.dumps(g))
+                elif how == "modelcopy":
+                    d = m.copy().reactions.get_by_id("R1").gpr
+                o["dhow"].append(how)
+                o["dtt"].append(self.table(d, "set"))
+                o["dgenes"].append(self.absgenes(d.genes))
+                o["deq"].append(self.tf(d == g) if variant % 2 else self.tf(g == d))
+            except Exception as e:
+                o["dhow"].append(how)
+                o["dtt"].append([])
+                o["dgenes"].append(["?raises:" + type(e).__name__])
+                o["deq"].append("?raises")
+        return o
 
 
 def _quiet():
